@@ -36,7 +36,10 @@ class Check(PropertyCheck):
         return impl
 
     def generate(self, rng, n, tier):
-        for _ in range(n):
+        for i in range(n):
+            if i % 40 == 39:
+                yield Scenario(["new", f"mark cogsingleton {rng.randint(0, 10**6)}"], {"accepted": 0})
+                continue
             yield self.scenario(rng, tier)
 
     def scenario(self, rng: random.Random, tier) -> Scenario:
@@ -98,10 +101,44 @@ class Check(PropertyCheck):
         two = any(l == "wsnap" and len(o.split("||")[0].split()) >= 3 for l, o in zip(scenario.lines, outs))
         return scenario.meta.get("accepted", 0) >= 3 and two
 
+    def cog_singleton_oracle(self, seed):
+        """create_or_get_observer with a condition, on SINGLETON observer types: the result satisfies the condition (or the
+        call raises) - never the first observer of the type regardless of the condition."""
+        import jsl
+        from job_shop_lib.reinforcement_learning import MakespanReward, IdleTimeReward, RewardObserver
+        r = random.Random(seed)
+        _, jobs = gen.gen_instance(r, "classic", max_jobs=3, max_machines=3, max_ops=3)
+        from impl import build_instance
+        inst = build_instance(jobs)
+        d = jsl.Dispatcher(inst)
+        first, second = r.sample([MakespanReward, IdleTimeReward], 2)
+        a, b = first(d), second(d)
+        h = jsl.HistoryObserver(d)
+        d.dispatch(inst.jobs[0][0], inst.jobs[0][0].machines[0])
+        res = []
+        for want in (first, second):
+            try:
+                got = d.create_or_get_observer(RewardObserver, condition=lambda o, w=want: isinstance(o, w))
+            except Exception:  # pylint: disable=broad-except
+                continue
+            if not isinstance(got, want):
+                res.append(("create-or-get", f"create_or_get_observer(RewardObserver, condition=is a {want.__name__}) returned a "
+                            f"{type(got).__name__} (subscribed: {first.__name__}, {second.__name__})"))
+        try:
+            got = d.create_or_get_observer(jsl.HistoryObserver, condition=lambda o: not o.history)
+        except Exception:  # pylint: disable=broad-except
+            got = None
+        if got is not None and got.history:
+            res.append(("create-or-get", "create_or_get_observer(HistoryObserver, condition=empty record) returned the observer "
+                        "that has already recorded a dispatch"))
+        return res
+
     def oracle(self, impl, scenario, index, line, out, ctx):
         """Independent bookkeeping of who must have been called, from the event list alone."""
         import impl_ext
         res = []
+        if line.startswith("mark cogsingleton"):
+            return self.cog_singleton_oracle(int(line.split()[2]))
         d = impl.dispatcher
         if d is None:
             return res
